@@ -19,7 +19,10 @@ META = {
              "writer wrote to calls the writers cannot tell apart (stated as a premise of the theorem, not assumed as an axiom). For "
              "B = MessagePack the premise is discharged: on the model of rmp / rmp-serde (diffed against the real crates by the "
              "MessagePack correspondence) MessagePack->MessagePack reproduces every stream of encodable values byte for byte, from "
-             "a slice and from a reader. The "
+             "a slice and from a reader. For B = JSON the reader half of the premise is proved on the models of serde_json's writer "
+             "and reader (what was written is read back to the same events; floats under an explicit premise on ryu), and the "
+             "round-trip clause is proved for the pair MessagePack/JSON: MessagePack->JSON->MessagePack reproduces what "
+             "MessagePack->MessagePack writes, for every stream of values JSON can carry. The "
              "forwarding model is diffed against the real transcoder (hooks). The premise is third-party behaviour and is checked on "
              "the implementation itself, with no reference reader needed: for generated documents (common model plus each pair's "
              "extensions: nulls, non-string keys, binary, non-finite floats, 32-bit floats, TOML date-times), nesting to depth 64, "
